@@ -190,6 +190,13 @@ def body(case):
             kind = 'constant-spectrum-not-constant' if case['fam'] == 'const' else ('same-grid-not-identity' if case['og'] == 'same' else 'flux-not-reproduced')
             check(bool(dev.max() <= tol * amp), kind, lambda: dict(maxdev=float(dev.max()), tol=tol, og=case['og'], pixel=int(np.nonzero(nz)[0][dev.argmax()])))
     c = case['scale']
+    if not with_ivar:
+        # the scaling relation is about (c flux, ivar / c^2); without an inverse variance iterfit derives its weights from the
+        # sample variance of the data (degenerate for exactly constant data), so nothing is asserted
+        note_label('scaling-skipped-no-ivar')
+        if nz.sum() >= 20:
+            note_label('>=20-good-output-pixels')
+        return
     nf2, ni2 = run(fl * c, iv / c ** 2)
     with judge('scaling'):
         nf2 = np.asarray(nf2, dtype='f8')
